@@ -25,9 +25,16 @@ type vfC20Case struct {
 	Msgs     []vfMsg `json:"msgs"`
 }
 
-var vfAlphabet = []string{"", "x", "y", "x ", "X", "100% full", "%d%s%v", "%"}
+var vfAlphabet = []string{"", "x", "y", "x ", "X", "100% full", "%d%s%v", "%",
+	// long messages that differ only late: at byte 127, 128, 255, 256, 4999, and by one trailing byte
+	strings.Repeat("p", 127) + "a", strings.Repeat("p", 127) + "b",
+	strings.Repeat("p", 128) + "a", strings.Repeat("p", 128) + "b",
+	strings.Repeat("q", 255) + "a", strings.Repeat("q", 255) + "b",
+	strings.Repeat("q", 256) + "a", strings.Repeat("q", 256) + "b",
+	strings.Repeat("r", 4999) + "a", strings.Repeat("r", 4999) + "b",
+	strings.Repeat("s", 64), strings.Repeat("s", 65), strings.Repeat("s", 1024), strings.Repeat("s", 1025)}
 
-const vfC20Rule = "generated: interval from {1ns..1h}, up to 40 (message, delta-t, Print|Printf) arrivals with delta-t drawn from {0, 1ns, I-1ns, I, I+1ns, uniform in [0,2I]} over an 8-symbol alphabet (incl. the empty message, near-duplicates and messages containing '%'); captured log output compared line by line with the model 'suppressed iff identical to the last printed message and less than I after that print'. Non-trivial: some message was suppressed and later printed again after the interval, and at least two different messages were printed. Distinct by hash of the case."
+const vfC20Rule = "generated: interval from {1ns..1h}, up to 40 (message, delta-t, Print|Printf) arrivals with delta-t drawn from {0, 1ns, I-1ns, I, I+1ns, uniform in [0,2I]} over a 22-symbol alphabet (incl. the empty message, near-duplicates, messages containing '%' and pairs of long messages that differ only at byte 127, 128, 255, 256, 4999 or by one trailing byte); captured log output compared line by line with the model 'suppressed iff identical to the last printed message and less than I after that print'. Non-trivial: some message was suppressed and later printed again after the interval, and at least two different messages were printed. Distinct by hash of the case."
 
 func vfGenC20(t *rapid.T) vfC20Case {
 	iv := rapid.OneOf(
@@ -36,7 +43,14 @@ func vfGenC20(t *rapid.T) vfC20Case {
 	).Draw(t, "interval")
 	c := vfC20Case{Interval: iv}
 	n := rapid.IntRange(0, 40).Draw(t, "n")
-	nsym := rapid.IntRange(1, len(vfAlphabet)).Draw(t, "nsym")
+	nsym := rapid.IntRange(1, 8).Draw(t, "nsym")
+	// the symbols in play: the first nsym short ones, or (one case in 3) a few adjacent ones from anywhere in the
+	// alphabet, which puts the long near-duplicates next to each other
+	symBase := 0
+	if rapid.IntRange(0, 2).Draw(t, "anywhere") == 0 {
+		nsym = rapid.IntRange(2, 4).Draw(t, "nsym2")
+		symBase = rapid.IntRange(0, len(vfAlphabet)-nsym).Draw(t, "symbase")
+	}
 	for i := 0; i < n; i++ {
 		var dt int64
 		switch rapid.IntRange(0, 6).Draw(t, "dtclass") {
@@ -55,7 +69,7 @@ func vfGenC20(t *rapid.T) vfC20Case {
 		case 6:
 			dt = iv / 2
 		}
-		c.Msgs = append(c.Msgs, vfMsg{M: rapid.IntRange(0, nsym-1).Draw(t, "m"), Dt: dt, F: rapid.Bool().Draw(t, "f")})
+		c.Msgs = append(c.Msgs, vfMsg{M: symBase + rapid.IntRange(0, nsym-1).Draw(t, "m"), Dt: dt, F: rapid.Bool().Draw(t, "f")})
 	}
 	return c
 }
